@@ -10,7 +10,7 @@
 //!   C03 partitioner (partitioner.rs)
 //!   C06 retry     (retry.rs)      C07 page      (page.rs)     C10 break   (brk.rs)
 //!   C12 route     (route.rs) + tablet (tablet.rs)              C14 evict   (evict.rs)
-//!   C13 spec      (spec.rs)
+//!   C13 spec      (spec.rs)                                    C15 learn   (c15learn.rs)
 //!   C18 timestamp (timestamp.rs) + tsconn (tsconn.rs, one hooked connection)   C20 keyspace (keyspace.rs)
 //! Output line: a short summary (never compared with a model). A case that cannot reach its precondition (session
 //! build / pool fill on an overloaded machine) prints `e2e-skip <why>` and judges nothing - never an oracle failure.
@@ -19,9 +19,11 @@ use crate::rng::Rng;
 use crate::{Ctx, Tier};
 
 pub mod brk;
+pub mod c15learn;
 pub mod common;
 pub mod evict;
 pub mod keyspace;
+pub mod midsmoke;
 pub mod page;
 pub mod partitioner;
 pub mod refresh;
@@ -43,6 +45,7 @@ pub fn family_of(pid: &str) -> Option<&'static str> {
         "C12" => Some("route"),
         "C13" => Some("spec"),
         "C14" => Some("evict"),
+        "C15" => Some("learn"),
         "C18" => Some("timestamp"),
         "C19" => Some("refresh"),
         "C20" => Some("keyspace"),
@@ -55,6 +58,7 @@ pub fn generate(pid: &str, rng: &mut Rng, tier: Tier, emit: &mut dyn FnMut(Strin
         Some("retry") => retry::generate(rng, tier, emit),
         Some("break") => brk::generate(rng, tier, emit),
         Some("evict") => evict::generate(rng, tier, emit),
+        Some("learn") => c15learn::generate(rng, tier, emit),
         Some("keyspace") => keyspace::generate(rng, tier, emit),
         Some("page") => page::generate(rng, tier, emit),
         Some("partitioner") => partitioner::generate(rng, tier, emit),
@@ -81,12 +85,14 @@ pub fn run(_pid: &str, case: &str, ctx: &mut Ctx) -> String {
         "retry" => retry::run(&words[2..], ctx),
         "break" => brk::run(&words[2..], ctx),
         "evict" => evict::run(&words[2..], ctx),
+        "learn" => c15learn::run(&words[2..], ctx),
         "keyspace" => keyspace::run(&words[2..], ctx),
         "page" => page::run(&words[2..], ctx),
         "partitioner" => partitioner::run(&words[2..], ctx),
         "refresh" => refresh::run(&words[2..], ctx),
         "route" => route::run(&words[2..], ctx),
         "smoke" => smoke::run(&words[2..], ctx),
+        "midsmoke" => midsmoke::run(&words[2..], ctx),
         "spec" => spec::run(&words[2..], ctx),
         "tablet" => tablet::run(&words[2..], ctx),
         "timestamp" => timestamp::run(&words[2..], ctx),
